@@ -305,6 +305,12 @@ def run(ctx):
                             model_line_of=gen.model_line, nontrivial=lambda c: len(c["paths"]) >= 3,
                             shrink_candidates=shrink_candidates, more_cases=lambda: [gen.case() for _ in range(n * 2)],
                             correspondence_name="table.CreateUpdateMsgFromPaths (+Serialize/Parse) vs Pack.Model (multiset of messages with predicted sizes)")
+    ocases = [gen_oversize(ctx.rng) for _ in range(ctx.scale(40, 400))]
+    cov_o = core.differential(ctx, "c11", proof, ocases, oversize_line, oversize_oracle, model_applies=lambda c: False, nontrivial=lambda c: True,
+                              model_line_of=lambda c: "pack 4096 0 ()", correspondence_name="sendMessageloop on a running server: a route that does not fit the session's message size is skipped, later routes are sent",
+                              impl_spec=("sim", True, ("-test.run", "TestSim", "-test.timeout", "0"), "SIM "), model_name="c11")
+    for k in ("evaluations", "distinct_nontrivial", "traces_validated_against_impl"):
+        cov[k] = cov.get(k, 0) + cov_o.get(k, 0)
     pc = core.proof_coverage(proof)
     pc.update(cov)
     pc.update({
@@ -314,6 +320,49 @@ def run(ctx):
                                                "attribute byte strings abstracted to identities: equal identity <=> equal bytes (what bytes.Equal decides in the packers)"],
     })
     return ctx.finish(pc, ["attribute Len() equals serialised length (C04)", "the receiver applies UPDATEs in emission order; a message refused by Serialize never reaches it"])
+
+
+# ---------------------------------------------------------------- whole server: a route too large for the session is skipped, the sender goes on
+def gen_oversize(rng):
+    """a route arrives whose re-advertisement (one AS more in the AS_PATH) does not fit a 4096-octet message: it is skipped for that
+    peer, and everything announced afterwards still reaches it; routes just below the limit are sent"""
+    # received: 51 + 4n octets with the AS_PATH (65001); sent to an eBGP peer: 55 + 4n
+    n = rng.choice([1011, 1011, 1010, 1009, 1011])
+    after = rng.sample(["10.2.0.0/24", "10.3.0.0/16", "10.4.0.0/24"], rng.choice([1, 2, 3]))
+    return {"n": n, "before": rng.random() < 0.5, "after": after, "sleep": rng.choice([0, 40, 100])}
+
+
+def oversize_line(c):
+    comms = " ".join(str(65536 * 100 + i) for i in range(c["n"]))
+    steps = ["(up a)", "(up b)"]
+    if c["before"]:
+        steps.append("(upd a (a 10.9.0.0/24 0 (65001) - - 0 () - ()))")
+    steps.append("(upd a (a 10.1.0.0/24 0 (65001) - - 0 (%s) - ()))" % comms)
+    if c["sleep"]:
+        steps.append("(sleep %d)" % c["sleep"])
+    for pf in c["after"]:
+        steps.append("(upd a (a %s 0 (65001) - - 0 () - ()))" % pf)
+    steps.append("(obs)")
+    return "(sim (global 65000 1.1.1.1 sync) (peers (a 10.0.0.1 65001) (b 10.0.0.2 65002)) (steps %s))" % " ".join(steps)
+
+
+def oversize_oracle(c, out):
+    from checks import simlib
+    r = simlib.split_output(out)
+    if r is None or not r[0]:
+        return ("harness-error", "the scenario did not complete: " + out[:300])
+    o = r[0][-1]
+    if "10.1.0.0/24" not in o["rib"]:
+        return ("harness-error", "the large route (%d communities) was not accepted from the announcing peer" % c["n"])
+    vb = {k.split("#")[0] for k in o["peers"]["b"].get("view", {})}
+    fits = 55 + 4 * c["n"] <= 4096
+    want = set(c["after"]) | ({"10.9.0.0/24"} if c["before"] else set()) | ({"10.1.0.0/24"} if fits else set())
+    if o["peers"]["b"]["state"] != "established":
+        return ("session-lost-over-an-oversize-route", "the session to the peer that cannot be sent the route is %s" % o["peers"]["b"]["state"])
+    if vb != want:
+        return ("sender-stopped-after-oversize-route" if want - vb else "oversize-route-sent",
+                "the peer holds %s; expected %s (the route with %d communities %s in 4096 octets once the local AS is prepended)" % (sorted(vb), sorted(want), c["n"], "fits" if fits else "does not fit"))
+    return None
 
 
 def replay(ctx, path):
